@@ -630,7 +630,7 @@ def run(rep, b, tier, seed, only_cases=None):
             got = o['matches'].get(j)
             if got is not None and r != got:
                 rep.violation('pattern %r path %r: the endpoint received %s, match_path said %s' % (c['pattern'], paths[int(j)], r, got),
-                              {'case': dict(c, extra=[paths[int(j)]], L=0), 'signature': 'endpoint-values'})
+                              {'case': dict(c, extra=[paths[int(j)]], L=0, request_sample=[1]), 'signature': 'endpoint-values'})
         # --- model vs implementation
         if isinstance(mm, tuple):
             ndiff += 1
